@@ -266,6 +266,7 @@ Step ==
                         ELSE IF e.result \in {"livelock", "timeout"} THEN {V("C20", l, "run_on did not terminate")}
                         ELSE IF partial /\ ~mm.badfrag /\ ~mm.fault /\ e.result = "ok"
                              THEN {V("C19", l, "run_on returned Ok although the stream ended inside a multi-packet message (" \o ToString(RLen(mm.inb)) \o " bytes pending)")}
+                        ELSE IF mm.fault /\ e.result = "ok" THEN {V("C19", l, "run_on returned Ok although the transport reported an error")}
                         ELSE IF expectErr /\ e.result = "ok" THEN {V("C20", l, "out-of-order fragments accepted silently")}
                         ELSE IF ~expectErr /\ e.result # "ok" /\ ~mm.blocked
                              THEN {V("C19", l, "run_on returned an error on a fault-free conformant conversation"),
